@@ -28,8 +28,12 @@ def svd_kernel(mat, assume_full_rank=False, matching_rank=True,
 
         kernel_dim = (kernel_dims).flatten()[0]
 
+    # take the last kernel_dim rows of v. (v[..., -kernel_dim:, :] is
+    # all of v, not an empty array, when kernel_dim is 0)
+    n_rows = v.shape[-2]
+
     if matching_rank:
-        return v[..., -kernel_dim:, :].swapaxes(-1, -2)
+        return v[..., n_rows - kernel_dim:, :].swapaxes(-1, -2)
 
     possible_dims = np.unique(kernel_dims)
     kernel_bases = []
@@ -38,7 +42,7 @@ def svd_kernel(mat, assume_full_rank=False, matching_rank=True,
     for kernel_dim in possible_dims:
         where_dim = (kernel_dims == kernel_dim)
         kernel_bases.append(
-            v[where_dim, -kernel_dim:, :].swapaxes(-1, -2)
+            v[where_dim, n_rows - kernel_dim:, :].swapaxes(-1, -2)
         )
         kernel_dim_loc.append(where_dim)
 
